@@ -167,69 +167,6 @@ func firstDiff(a, b []ev) string {
 
 // ---- selectors ----
 
-func genSelector(t *sim.Tape, ssb builder.SelectorSpecBuilder, depth int, inRec bool) builder.SelectorSpec {
-	if depth > 3 {
-		return ssb.Matcher()
-	}
-	opts := []int{0, 0, 1, 2, 2, 3, 4, 5, 6}
-	if inRec {
-		opts = append(opts, 7, 7, 7)
-	} else if depth < 2 {
-		opts = append(opts, 8, 8, 8)
-	}
-	switch opts[t.Choice(len(opts), "sel.kind")] {
-	case 0:
-		return ssb.Matcher()
-	case 1:
-		a := int64(t.Choice(6, "sel.from"))
-		return ssb.MatcherSubset(a, a+int64(t.Choice(8, "sel.len")))
-	case 2:
-		return ssb.ExploreAll(genSelector(t, ssb, depth+1, inRec))
-	case 3:
-		return ssb.ExploreFields(func(b builder.ExploreFieldsSpecBuilder) {
-			n := 1 + t.Choice(3, "sel.nfields")
-			used := map[string]bool{}
-			for i := 0; i < n; i++ {
-				f := []string{"a", "b", "c", "d", "k", "x", "y", "next", "left", "right", "data", "0", "1", "7"}[t.Choice(14, "sel.field")]
-				if used[f] {
-					continue
-				}
-				used[f] = true
-				b.Insert(f, genSelector(t, ssb, depth+1, inRec))
-			}
-		})
-	case 4:
-		return ssb.ExploreIndex(int64(t.Choice(4, "sel.index")), genSelector(t, ssb, depth+1, inRec))
-	case 5:
-		a := int64(t.Choice(3, "sel.rstart"))
-		return ssb.ExploreRange(a, a+int64(1+t.Choice(4, "sel.rlen")), genSelector(t, ssb, depth+1, inRec))
-	case 6:
-		n := 2 + t.Choice(2, "sel.nunion")
-		var ms []builder.SelectorSpec
-		for i := 0; i < n; i++ {
-			ms = append(ms, genSelector(t, ssb, depth+1, inRec))
-		}
-		return ssb.ExploreUnion(ms...)
-	case 7:
-		return ssb.ExploreRecursiveEdge()
-	default:
-		lim := selector.RecursionLimitNone()
-		if t.Bool("sel.limited") {
-			lim = selector.RecursionLimitDepth(int64(1 + t.Choice(5, "sel.depth")))
-		}
-		var seq builder.SelectorSpec
-		switch t.Choice(4, "sel.seq") {
-		case 0:
-			seq = ssb.ExploreAll(ssb.ExploreRecursiveEdge())
-		case 1:
-			seq = ssb.ExploreUnion(ssb.Matcher(), ssb.ExploreAll(ssb.ExploreRecursiveEdge()))
-		default:
-			seq = genSelector(t, ssb, depth+1, true)
-		}
-		return ssb.ExploreRecursive(lim, seq)
-	}
-}
-
 type world struct {
 	s    *sim.Sim
 	t    *sim.Tape
@@ -320,7 +257,7 @@ func (S) RunTape(t *sim.Tape, st *sim.Stats, keepLog bool) *sim.Outcome {
 		if t.Pct(50, "sel.everything") {
 			spec = ssb.ExploreRecursive(selector.RecursionLimitNone(), ssb.ExploreUnion(ssb.Matcher(), ssb.ExploreAll(ssb.ExploreRecursiveEdge())))
 		} else {
-			spec = genSelector(t, ssb, 0, false)
+			spec = gen.Selector(t, ssb, 0, false, false)
 		}
 		if sel, err := spec.Selector(); err == nil {
 			w.sel = sel
